@@ -20,6 +20,7 @@ package main
 import (
 	"bytes"
 	"encoding/json"
+	"errors"
 	"fmt"
 	"io"
 	"log"
@@ -105,6 +106,56 @@ func c19JipcParse(list string) ([]c19Jop, bool) {
 
 // one attempt on a grid of the given tick; ok=false when an operation left its time slot
 func c19JipcOnce(k int64, ops []c19Jop, tick time.Duration) (string, bool) {
+	return c19JipcOnceSink(k, ops, tick, "", false)
+}
+
+// c19FailSink is a WriteSyncer over a buffer whose successive Write calls behave as the plan says:
+// o ok, s ok but Sync fails, n error with nothing written, t error after half the line, l error after
+// all but the newline, w whole line written and error.
+type c19FailSink struct {
+	buf      bytes.Buffer
+	plan     string
+	n        int
+	syncFail bool
+}
+
+var errC19Sink = errors.New("verif: sink failure")
+
+func (s *c19FailSink) Write(p []byte) (int, error) {
+	mode := byte('o')
+	if s.n < len(s.plan) {
+		mode = s.plan[s.n]
+	}
+	s.n++
+	switch mode {
+	case 'n':
+		return 0, errC19Sink
+	case 't':
+		k := len(p) / 2
+		s.buf.Write(p[:k])
+		return k, errC19Sink
+	case 'l':
+		s.buf.Write(p[:len(p)-1])
+		return len(p) - 1, errC19Sink
+	case 'w':
+		s.buf.Write(p)
+		return len(p), errC19Sink
+	}
+	s.syncFail = mode == 's'
+	return s.buf.Write(p)
+}
+
+func (s *c19FailSink) Sync() error {
+	if s.syncFail {
+		s.syncFail = false
+		return errC19Sink
+	}
+	return nil
+}
+
+// with failing: the journal is printed line by line (x = a line that does not parse) and the windows
+// are "err" when the reader fails
+func c19JipcOnceSink(k int64, ops []c19Jop, tick time.Duration, plan string, failing bool) (string, bool) {
 	var logbuf bytes.Buffer
 	ctx := NewBrokerContext(log.New(&logbuf, "", 0))
 	ctx.allowedRelayPattern = "snowflake.torproject.net$"
@@ -117,7 +168,7 @@ func c19JipcOnce(k int64, ops []c19Jop, tick time.Duration) (string, bool) {
 	defer close(ctx.proxyPolls)
 	ipc := &IPC{ctx}
 
-	journal := &c19SyncBuf{}
+	journal := &c19FailSink{plan: plan}
 	t0 := time.Now()
 	ctx.metrics.distinctIPWriter = sinkcluster.NewClusterWriter(journal, time.Duration(k)*tick+tick/2, ipsetsink.NewIPSetSink("verif-key"))
 	if time.Since(t0) >= tick/4 {
@@ -149,17 +200,24 @@ func c19JipcOnce(k int64, ops []c19Jop, tick time.Duration) (string, bool) {
 	_ = last
 
 	ctx.metrics.lock.Lock()
-	text := journal.String()
+	text := journal.buf.String()
 	ctx.metrics.lock.Unlock()
 	var entries []sinkcluster.SinkEntry
 	var chunks []string
-	for _, line := range strings.Split(strings.TrimSpace(text), "\n") {
-		if line == "" {
-			continue
-		}
+	lines := strings.Split(text, "\n")
+	if len(lines) > 0 && lines[len(lines)-1] == "" {
+		lines = lines[:len(lines)-1] // terminated; otherwise the rest is a last line for the reader's scanner
+	}
+	damaged := false
+	for _, line := range lines {
 		var e sinkcluster.SinkEntry
 		if err := json.Unmarshal([]byte(line), &e); err != nil {
-			return "!journal " + err.Error(), true
+			if !failing {
+				return "!journal " + err.Error(), true
+			}
+			damaged = true
+			chunks = append(chunks, "x")
+			continue
 		}
 		one, err := sinkcluster.NewClusterCounter(e.RecordingStart, e.RecordingEnd).Count(bytes.NewBufferString(line + "\n"))
 		if err != nil {
@@ -169,13 +227,24 @@ func c19JipcOnce(k int64, ops []c19Jop, tick time.Duration) (string, bool) {
 		chunks = append(chunks, fmt.Sprintf("%d:%d:%d", int64(e.RecordingStart.Sub(t0)/tick), int64(e.RecordingEnd.Sub(t0)/tick), one.Sum))
 	}
 	var wins []string
+	readerFailed := false
 	for i := range entries {
 		for j := i; j < len(entries); j++ {
 			r, err := sinkcluster.NewClusterCounter(entries[i].RecordingStart, entries[j].RecordingEnd).Count(strings.NewReader(text))
 			if err != nil {
-				return "!count " + err.Error(), true
+				if !failing {
+					return "!count " + err.Error(), true
+				}
+				readerFailed = true
+				continue
 			}
 			wins = append(wins, fmt.Sprintf("%d-%d:%d:%d", i, j, r.Sum, r.ChunkIncluded))
+		}
+	}
+	if damaged && len(entries) == 0 {
+		// no parsable chunk to build a window from: ask for the whole run
+		if _, err := sinkcluster.NewClusterCounter(t0.Add(-tick), time.Now()).Count(strings.NewReader(text)); err != nil {
+			readerFailed = true
 		}
 	}
 	logbuf.Reset()
@@ -200,7 +269,48 @@ func c19JipcOnce(k int64, ops []c19Jop, tick time.Duration) (string, bool) {
 		}
 		return strings.Join(l, sep)
 	}
+	if failing {
+		w := pl(wins, ",")
+		if readerFailed || damaged {
+			if !readerFailed {
+				return "!reader accepted a journal with a line that does not parse", true
+			}
+			w = "err"
+		}
+		return "lines=" + pl(chunks, ";") + " wins=" + w + " uniq=" + strings.Join(uniq, "."), true
+	}
 	return "chunks=" + pl(chunks, ";") + " wins=" + pl(wins, ",") + " uniq=" + strings.Join(uniq, "."), true
+}
+
+// metrics jipcf <k> <plan> <ops>: jipc with a journal sink that fails as the plan says
+func c19Jipcf(args []string) string {
+	if len(args) != 3 {
+		return "!badcase"
+	}
+	c19LogOnce.Do(func() { log.SetOutput(io.Discard) })
+	k, err := strconv.ParseInt(args[0], 10, 64)
+	if err != nil || k < 0 {
+		return "!badcase"
+	}
+	plan := args[1]
+	if plan == "-" {
+		plan = ""
+	}
+	if strings.Trim(plan, "osntlw") != "" {
+		return "!badcase"
+	}
+	ops, ok := c19JipcParse(args[2])
+	if !ok {
+		return "!badcase"
+	}
+	tick := time.Millisecond
+	for try := 0; try < 12; try++ {
+		if r, ok := c19JipcOnceSink(k, ops, tick, plan, true); ok {
+			return r
+		}
+		tick *= 2
+	}
+	return "!timing"
 }
 
 func c19Jipc(args []string) string {
